@@ -80,6 +80,10 @@ if __name__ == "__main__":
     if "--equiv" in flags:
         for m in load_equiv().values():
             jobs.append((m, m["props"]))
+        pd = os.path.join(VERIF, "mutants", "equiv_patches")
+        for f in sorted(os.listdir(pd)) if os.path.isdir(pd) else []:
+            if f.endswith(".diff"):
+                jobs.append((os.path.join(pd, f), ["C%02d" % i for i in range(1, 21)]))
     elif "--all" in flags:
         prop = None
         if "--prop" in sys.argv:
